@@ -6,35 +6,39 @@ From DV Require Import RightsP Run_C01 C01P Run_C02 C02P Run_C12.
 Definition old_room_of (h : mhead) : option uid := match h_old h with Some o => o_room o | None => None end.
 Definition old_author_of (h : mhead) : option key := match h_old h with Some o => Some (o_author o) | None => None end.
 
-Lemma node_agree me rooms h rid :
+(* the local head check is the peer's validate_node on the row as received, plus the check of the
+   references the mutation removes (in the room entered) *)
+Lemma node_agree me now rooms h rid :
   h_kind h = KNormal -> h_has_node h = true -> h_room h = Some rid ->
-  (check_head me rooms h = None <->
-   validate_node rooms (sent_row me h) (old_room_of h) (old_author_of h) = true).
+  (check_head me now rooms h = None <->
+   validate_node rooms (sent_row me h) (old_room_of h) (old_author_of h) = true /\
+   match find_room rooms rid with Some r => dels_ok me now r h = true | None => False end).
 Proof.
   intros Hk Hn Hr. unfold check_head, validate_node, old_room_of, old_author_of, sent_row. cbn [n_too_big n_room n_ent n_author n_mdate].
   rewrite Hk, Hn, Hr. cbn [negb].
-  destruct (h_too_big h); [split; discriminate|].
+  destruct (h_too_big h); [split; [discriminate|intros [H _]; discriminate]|].
   destruct (h_old h) as [o|]; cbn [required_right].
   - destruct (find_room rooms rid) as [r|] eqn:Er.
     + destruct (o_room o) as [orid|].
       * destruct (N.eqb orid rid) eqn:Ee; cbn [negb].
-        -- destruct (can r me (h_ent h) (h_date h) (needed (N.eqb (o_author o) me))); split; congruence.
-        -- destruct (find_room rooms orid) as [oroom|]; [|split; discriminate].
-           destruct (can oroom me (h_ent h) (h_date h) (needed (N.eqb (o_author o) me))); cbn [negb]; [|split; discriminate].
-           destruct (can r me (h_ent h) (h_date h) (needed (N.eqb (o_author o) me))); split; congruence.
-      * cbn [negb]. destruct (can r me (h_ent h) (h_date h) (needed (N.eqb (o_author o) me))); split; congruence.
-    + split; [discriminate|]. destruct (o_room o) as [orid|]; cbn [negb]; [|discriminate].
-      destruct (N.eqb orid rid); cbn [negb]; [discriminate|].
-      destruct (find_room rooms orid) as [oroom|]; [|discriminate].
-      destruct (can oroom me _ _ _); cbn [negb]; discriminate.
-  - cbn [negb]. destruct (find_room rooms rid) as [r|]; [|split; discriminate].
-    destruct (can r me (h_ent h) (h_date h) MutateSelf); split; congruence.
+        -- destruct (can r me (h_ent h) (h_date h) (needed (N.eqb (o_author o) me))); [|split; [discriminate|intros [H _]; discriminate]].
+           destruct (dels_ok me now r h); split; try discriminate; try tauto. intros [_ H]. discriminate.
+        -- destruct (find_room rooms orid) as [oroom|]; [|split; [discriminate|intros [H _]; discriminate]].
+           destruct (can oroom me (h_ent h) (h_date h) (needed (N.eqb (o_author o) me))); cbn [negb]; [|split; [discriminate|intros [H _]; discriminate]].
+           destruct (can r me (h_ent h) (h_date h) (needed (N.eqb (o_author o) me))); [|split; [discriminate|intros [H _]; discriminate]].
+           destruct (dels_ok me now r h); split; try discriminate; try tauto. intros [_ H]. discriminate.
+      * cbn [negb]. destruct (can r me (h_ent h) (h_date h) (needed (N.eqb (o_author o) me))); [|split; [discriminate|intros [H _]; discriminate]].
+        destruct (dels_ok me now r h); split; try discriminate; try tauto. intros [_ H]. discriminate.
+    + split; [discriminate|]. intros [_ []].
+  - cbn [negb]. destruct (find_room rooms rid) as [r|]; [|split; [discriminate|intros [_ []]]].
+    destruct (can r me (h_ent h) (h_date h) MutateSelf); [|split; [discriminate|intros [H _]; discriminate]].
+    destruct (dels_ok me now r h); split; try discriminate; try tauto. intros [_ H]. discriminate.
 Qed.
 
-Lemma validate_entity_single me rooms h :
-  validate_entity me rooms (MEnt h []) = VOk <-> check_head me rooms h = None.
+Lemma validate_entity_single me now rooms h :
+  validate_entity me now rooms (MEnt h []) = VOk <-> check_head me now rooms h = None.
 Proof.
-  simpl. destruct (check_head me rooms h) as [v|] eqn:E; split; try congruence; try discriminate.
+  simpl. destruct (check_head me now rooms h) as [v|] eqn:E; split; try congruence; try discriminate.
   intros ->. exfalso. eapply check_head_not_ok; eauto.
 Qed.
 
@@ -48,24 +52,17 @@ Lemma can_needed_self_built defs rid r k e d b :
   find_room (build_rooms defs) rid = Some r -> can r k e d (needed b) = true -> can r k e d MutateSelf = true.
 Proof. destruct b; simpl; [tauto|apply can_all_self_built]. Qed.
 
-Lemma head_ok_can defs me h rid :
-  h_kind h = KNormal -> h_has_node h = true -> h_room h = Some rid ->
-  check_head me (build_rooms defs) h = None ->
+(* a row the peer accepts: its author has the own-rows right in the room entered *)
+Lemma sent_ok_can defs me h rid :
+  h_room h = Some rid ->
+  validate_node (build_rooms defs) (sent_row me h) (old_room_of h) (old_author_of h) = true ->
   exists r, find_room (build_rooms defs) rid = Some r /\ can r me (h_ent h) (h_date h) MutateSelf = true.
 Proof.
-  intros Hk Hn Hr. unfold check_head. rewrite Hk, Hn, Hr. cbn [negb]. destruct (h_too_big h); [discriminate|].
-  destruct (h_old h) as [o|].
-  - destruct (find_room (build_rooms defs) rid) as [r|] eqn:Er; [|discriminate]. intros H. exists r. split; [reflexivity|].
-    assert (Hc : can r me (h_ent h) (h_date h) (needed (N.eqb (o_author o) me)) = true).
-    { destruct (o_room o) as [orid|].
-      - destruct (N.eqb orid rid).
-        + destruct (can r me _ _ _); [reflexivity|discriminate].
-        + destruct (find_room (build_rooms defs) orid); [|discriminate]. destruct (can r0 me _ _ _); [|discriminate].
-          destruct (can r me _ _ _); [reflexivity|discriminate].
-      - destruct (can r me _ _ _); [reflexivity|discriminate]. }
-    eapply can_needed_self_built; eauto.
-  - destruct (find_room (build_rooms defs) rid) as [r|] eqn:Er; [|discriminate]. intros H. exists r. split; [reflexivity|].
-    destruct (can r me _ _ _); [reflexivity|discriminate].
+  intros Hr. unfold validate_node, sent_row. cbn [n_too_big n_room n_ent n_author n_mdate]. rewrite Hr.
+  destruct (h_too_big h); [discriminate|].
+  match goal with |- (if negb ?d then _ else _) = true -> _ => destruct d; cbn [negb]; [|discriminate] end.
+  destruct (find_room (build_rooms defs) rid) as [r|] eqn:Er; [|discriminate]. intros Hc. exists r. split; [reflexivity|].
+  unfold required_right, old_author_of in Hc. destruct (h_old h) as [o|]; [eapply can_needed_self_built; eauto|exact Hc].
 Qed.
 
 (* ------------------------------------------------------------------ counting *)
@@ -74,12 +71,47 @@ Proof.
   unfold count. intros H. f_equal. induction l as [|a t IH]; simpl in *; [reflexivity|].
   apply andb_prop in H. destruct H as [Ha Ht]. rewrite Ha. simpl. f_equal. auto.
 Qed.
+Lemma filter_len_le {A} (p : A -> bool) l : (length (filter p l) <= length l)%nat.
+Proof. induction l as [|a t IH]; simpl; [lia|]. destruct (p a); simpl; lia. Qed.
+Lemma count_not_all {A} (p : A -> bool) l : forallb p l = false -> count p l <> Z.of_nat (length l).
+Proof.
+  unfold count. intros H E. apply Nat2Z.inj in E. revert H E. induction l as [|a t IH]; simpl; [discriminate|].
+  intros H E. destruct (p a) eqn:Pa; simpl in *.
+  - apply IH; [assumption|lia].
+  - pose proof (filter_len_le p t). lia.
+Qed.
+Lemma forallb_ext_in' {A} (p q : A -> bool) l : (forall x, In x l -> p x = q x) -> forallb p l = forallb q l.
+Proof. induction l as [|a t IH]; simpl; intros H; [reflexivity|]. rewrite (H a (or_introl eq_refl)), IH; auto. Qed.
 Lemma length_upto n : length (upto n) = n.
 Proof. induction n; simpl; [reflexivity|]. rewrite app_length, IHn. simpl. lia. Qed.
 Lemma length_numbered {A} (l : list A) : forall n, length (numbered n l) = length l.
 Proof. induction l; simpl; intros; [reflexivity|]. rewrite IHl. reflexivity. Qed.
-Lemma numbered_snd {A} (l : list A) : forall n p, In p (numbered n l) -> In (snd p) l.
-Proof. induction l as [|a t IH]; simpl; intros n p H; [contradiction|]. destruct H as [<-|H]; [auto|]. right. eapply IH; eauto. Qed.
+Lemma numbered_ge {A} (l : list A) : forall n p, In p (numbered n l) -> (n <= fst p)%N.
+Proof.
+  induction l as [|a t IH]; simpl; intros n p H; [contradiction|]. destruct H as [<-|H]; [simpl; lia|].
+  apply IH in H. lia.
+Qed.
+Lemma numbered_fst_inj {A} (l : list A) : forall n p q, In p (numbered n l) -> In q (numbered n l) -> fst p = fst q -> p = q.
+Proof.
+  induction l as [|a t IH]; simpl; intros n p q Hp Hq He; [contradiction|].
+  destruct Hp as [<-|Hp], Hq as [<-|Hq].
+  - reflexivity.
+  - apply numbered_ge in Hq. simpl in He. lia.
+  - apply numbered_ge in Hp. simpl in He. lia.
+  - eapply IH; eauto.
+Qed.
+Lemma count_map {A B} (p : B -> bool) (f : A -> B) l : count p (map f l) = count (fun x => p (f x)) l.
+Proof. unfold count. f_equal. induction l as [|a t IH]; simpl; [reflexivity|]. destruct (p (f a)); simpl; rewrite IH; reflexivity. Qed.
+Lemma count_ext_in {A} (p q : A -> bool) l : (forall x, In x l -> p x = q x) -> count p l = count q l.
+Proof.
+  unfold count. intros H. f_equal. induction l as [|a t IH]; simpl; [reflexivity|].
+  rewrite (H a (or_introl eq_refl)). destruct (q a); simpl; rewrite IH; auto; intros; apply H; simpl; auto.
+Qed.
+Lemma count_numbered_snd {A} (p : A -> bool) (l : list A) : forall n, count (fun x => p (snd x)) (numbered n l) = count p l.
+Proof.
+  unfold count. intros n. f_equal. revert n. induction l as [|a t IH]; intros n; simpl; [reflexivity|].
+  destruct (p a); simpl; rewrite IH; reflexivity.
+Qed.
 
 (* ------------------------------------------------------------------ CWrite *)
 Definition peer_knows (dm : dmodel) (e : entity) : bool :=
@@ -96,54 +128,74 @@ Proof.
   destruct (h_old h) as [o|]; cbn [find n_id n_room n_author]; reflexivity.
 Qed.
 
-Theorem write_agree defs dm me h nadd rm :
-  h_kind h = KNormal -> peer_knows dm (h_ent h) = true ->
-  forallb (N.eqb me) rm = true ->
-  violations12 (CWrite defs dm me h nadd rm) (run_C12 (CWrite defs dm me h nadd rm)) = [].
+(* the peer's verdict on the tombstone of the i-th removed reference: the own-rows right if the
+   caller wrote that reference, the all-rows right otherwise *)
+Lemma tombstone_verdict defs me h rid r p :
+  find_room (build_rooms defs) rid = Some r -> In p (numbered 0%N (h_edge_dels h)) ->
+  edel_ok (build_rooms defs) (peer_store h (h_edge_dels h)) (ref_tombstone me rid (h_date h) (stored_ref h p)) =
+  can r me (h_ent h) (h_date h) (needed (N.eqb (snd p) me)).
 Proof.
-  intros Hk Hp Hrm. unfold run_C12, violations12, write_sends. rewrite Hk.
+  intros Er Hp. unfold edel_ok, ref_tombstone. cbn [ed_ent ed_room ed_author ed_date stored_ref e_ent]. rewrite Er.
+  match goal with |- can r me _ _ ?t = _ => assert (Ht : t = needed (N.eqb (snd p) me)) end; [|rewrite Ht; reflexivity].
+  destruct (find _ _) as [ex|] eqn:Ef.
+  - apply find_some in Ef. destruct Ef as [Hin Hhit].
+    unfold peer_store in Hin. cbn [s_edges] in Hin. apply in_map_iff in Hin. destruct Hin as [q [<- Hq]].
+    unfold edge_hit in Hhit. cbn [ed_src ed_ent ed_label ed_dest ed_cdate stored_ref e_src e_ent e_label e_dest e_cdate] in Hhit.
+    apply andb_prop in Hhit. destruct Hhit as [Hhit _]. apply andb_prop in Hhit. destruct Hhit as [_ Hdest].
+    apply N.eqb_eq in Hdest. assert (Hfst : fst q = fst p) by (eapply N.add_cancel_l; exact Hdest).
+    rewrite (numbered_fst_inj _ 0%N q p Hq Hp Hfst). unfold stored_ref. cbn [e_author]. reflexivity.
+  - exfalso. pose proof (find_none _ _ Ef (stored_ref h p)) as Hn.
+    assert (Hin : In (stored_ref h p) (s_edges (peer_store h (h_edge_dels h)))).
+    { unfold peer_store. cbn [s_edges]. apply in_map. exact Hp. }
+    specialize (Hn Hin). unfold edge_hit in Hn.
+    cbn [ed_src ed_ent ed_label ed_dest ed_cdate stored_ref e_src e_ent e_label e_dest e_cdate] in Hn.
+    rewrite !N.eqb_refl, Z.eqb_refl in Hn. unfold oent_eqb in Hn. cbn [opt_eqb] in Hn. rewrite N.eqb_refl in Hn. discriminate.
+Qed.
+
+(* one-row write, references added, references of ANY authors removed: same verdict on both sides *)
+Theorem write_agree defs dm me h nadd :
+  h_kind h = KNormal -> peer_knows dm (h_ent h) = true ->
+  violations12 (CWrite defs dm me h nadd) (run_C12 (CWrite defs dm me h nadd)) = [].
+Proof.
+  intros Hk Hp. unfold run_C12, violations12, write_sends. rewrite Hk.
   destruct (h_has_node h) eqn:Hn; [|reflexivity].
   destruct (h_room h) as [rid|] eqn:Hr; [|reflexivity].
-  rewrite (accept_sent_row defs dm me h rm rid Hr Hp).
-  pose proof (node_agree me (build_rooms defs) h rid Hk Hn Hr) as Hag.
-  pose proof (validate_entity_single me (build_rooms defs) h) as Hsingle.
-  destruct (validate_entity me (build_rooms defs) (MEnt h [])) eqn:Hv; cbn [verdict_code Z.eqb].
-  - (* locally accepted *)
-    assert (Hc : check_head me (build_rooms defs) h = None) by (apply Hsingle; reflexivity).
-    assert (Hval : validate_node (build_rooms defs) (sent_row me h) (old_room_of h) (old_author_of h) = true) by (apply Hag; exact Hc).
-    rewrite Hval. cbn [zb Z.eqb andb].
-    destruct (head_ok_can defs me h rid Hk Hn Hr Hc) as [r [Er Hself]]. rewrite Er.
+  rewrite (accept_sent_row defs dm me h (h_edge_dels h) rid Hr Hp).
+  pose proof (node_agree me (h_date h) (build_rooms defs) h rid Hk Hn Hr) as Hag.
+  pose proof (validate_entity_single me (h_date h) (build_rooms defs) h) as Hsingle.
+  destruct (validate_node (build_rooms defs) (sent_row me h) (old_room_of h) (old_author_of h)) eqn:Hval.
+  - (* the peer accepts the row *)
+    destruct (sent_ok_can defs me h rid Hr Hval) as [r [Er Hself]]. rewrite Er in *.
+    cbn [zb Z.eqb andb].
+    (* the added references: the row is there, the own-rows right holds *)
     rewrite count_all.
     2:{ apply forallb_forall. intros x Hx. apply in_map_iff in Hx. destruct Hx as [i [<- _]].
-        unfold edge_ok, added_ref. cbn [e_ent e_author e_cdate]. exact Hself. }
+        unfold edge_ok, edge_right, added_ref, src_in_room. cbn [e_ent e_author e_cdate e_src s_nodes existsb sent_row n_id n_room n_ent].
+        rewrite Hr, N.eqb_refl. cbn [opt_eqb]. rewrite N.eqb_refl. unfold oent_eqb. cbn [opt_eqb]. rewrite N.eqb_refl. cbn [andb orb]. exact Hself. }
     rewrite map_length, length_upto, N_nat_Z, Z.eqb_refl. cbn [andb].
-    rewrite count_all.
-    2:{ apply forallb_forall. intros d Hd. apply in_map_iff in Hd. destruct Hd as [e [<- He]].
-        unfold peer_store in He. cbn [s_edges] in He.
-        unfold edel_ok, ref_tombstone. cbn [ed_ent ed_room ed_author ed_date].
-        apply in_map_iff in He. destruct He as [p [<- Hp']]. cbn [stored_ref e_ent]. rewrite Er.
-        match goal with |- can r me _ _ ?t = true => assert (Ht : t = MutateSelf) end.
-        { destruct (find _ _) as [ex|] eqn:Ef; [|reflexivity]. apply find_some in Ef. destruct Ef as [Hin _].
-          unfold peer_store in Hin. cbn [s_edges] in Hin. apply in_map_iff in Hin. destruct Hin as [q [<- Hq]].
-          cbn [stored_ref e_author]. apply numbered_snd in Hq. rewrite forallb_forall in Hrm. specialize (Hrm _ Hq).
-          apply N.eqb_eq in Hrm. rewrite <- Hrm, N.eqb_refl. reflexivity. }
-        rewrite Ht. exact Hself. }
-    unfold peer_store. cbn [s_edges]. rewrite !map_length, length_numbered, Z.eqb_refl. reflexivity.
-  - assert (Hnv : validate_node (build_rooms defs) (sent_row me h) (old_room_of h) (old_author_of h) = false).
-    { apply not_true_is_false. intros E. apply Hag in E. apply Hsingle in E. congruence. }
-    rewrite Hnv. reflexivity.
-  - assert (Hnv : validate_node (build_rooms defs) (sent_row me h) (old_room_of h) (old_author_of h) = false).
-    { apply not_true_is_false. intros E. apply Hag in E. apply Hsingle in E. congruence. }
-    rewrite Hnv. reflexivity.
-  - assert (Hnv : validate_node (build_rooms defs) (sent_row me h) (old_room_of h) (old_author_of h) = false).
-    { apply not_true_is_false. intros E. apply Hag in E. apply Hsingle in E. congruence. }
-    rewrite Hnv. reflexivity.
-  - assert (Hnv : validate_node (build_rooms defs) (sent_row me h) (old_room_of h) (old_author_of h) = false).
-    { apply not_true_is_false. intros E. apply Hag in E. apply Hsingle in E. congruence. }
-    rewrite Hnv. reflexivity.
-  - assert (Hnv : validate_node (build_rooms defs) (sent_row me h) (old_room_of h) (old_author_of h) = false).
-    { apply not_true_is_false. intros E. apply Hag in E. apply Hsingle in E. congruence. }
-    rewrite Hnv. reflexivity.
+    (* the tombstones: exactly the local check of the removed references *)
+    set (f := fun a : key => can r me (h_ent h) (h_date h) (needed (N.eqb a me))).
+    assert (Hcount : count (edel_ok (build_rooms defs) (peer_store h (h_edge_dels h)))
+                       (map (ref_tombstone me rid (h_date h)) (s_edges (peer_store h (h_edge_dels h)))) = count f (h_edge_dels h)).
+    { unfold peer_store at 2. cbn [s_edges]. rewrite !count_map.
+      rewrite <- (count_numbered_snd f (h_edge_dels h) 0%N). apply count_ext_in. intros p Hp'.
+      apply tombstone_verdict; assumption. }
+    rewrite Hcount.
+    assert (Hdels : dels_ok me (h_date h) r h = forallb f (h_edge_dels h)).
+    { unfold dels_ok, f. apply forallb_ext_in'. intros a _. destruct (N.eqb a me); cbn [needed orb]; [symmetry; exact Hself|reflexivity]. }
+    destruct (forallb f (h_edge_dels h)) eqn:Hall.
+    + assert (Hv : validate_entity me (h_date h) (build_rooms defs) (MEnt h []) = VOk).
+      { apply Hsingle. apply Hag. split; [reflexivity|]. rewrite Hdels. reflexivity. }
+      rewrite Hv. cbn [verdict_code Z.eqb]. rewrite (count_all _ _ Hall), Z.eqb_refl. reflexivity.
+    + assert (Hv : validate_entity me (h_date h) (build_rooms defs) (MEnt h []) <> VOk).
+      { intros E. apply Hsingle in E. apply Hag in E. destruct E as [_ E]. rewrite Hdels in E. discriminate. }
+      pose proof (count_not_all _ _ Hall) as Hne. apply Z.eqb_neq in Hne. rewrite Hne.
+      destruct (validate_entity me (h_date h) (build_rooms defs) (MEnt h [])); [congruence| | | | |]; reflexivity.
+  - (* the peer refuses the row: so does the local path *)
+    assert (Hv : validate_entity me (h_date h) (build_rooms defs) (MEnt h []) <> VOk).
+    { intros E. apply Hsingle in E. apply Hag in E. destruct E as [E _]. discriminate. }
+    cbn [zb Z.eqb andb].
+    destruct (validate_entity me (h_date h) (build_rooms defs) (MEnt h [])); [congruence| | | | |]; reflexivity.
 Qed.
 
 (* ------------------------------------------------------------------ deletion of a row *)
@@ -164,7 +216,7 @@ Proof.
   destruct (dn_room n) as [rid|] eqn:Hr; [|reflexivity].
   unfold validate_deletion. cbn [validate_dnodes validate_dupd validate_dedges]. rewrite Hk, Hr, Hd.
   unfold ndel_ok, lookup_node, row_of. cbn [nd_ent nd_room nd_id nd_author nd_date s_nodes find n_id n_author]. rewrite N.eqb_refl.
-  cbn [n_author].
+  cbn [n_author n_ent]. unfold oent_eqb. cbn [opt_eqb]. rewrite N.eqb_refl. cbn [andb].
   destruct (find_room (build_rooms defs) rid) as [r|] eqn:Er.
   - pose proof (check_del_ok_iff me now (build_rooms defs) (dn_ent n) rid (dn_author n) r Er) as Hiff.
     destruct (check_del me now (build_rooms defs) KNormal (dn_ent n) (Some rid) (dn_author n) now) eqn:Hc; cbn [verdict_code Z.eqb].
@@ -220,11 +272,10 @@ Proof.
 Qed.
 
 (* ------------------------------------------------------------------ field values: request text -> JSON -> peer *)
-(* the two listed classes, as conditions on the request and the data model: an explicit null;
-   a Json field given a scalar (by a literal or by its default) *)
+(* the listed class, as a condition on the request and the data model: a Json field given a scalar
+   (by a literal or by its default) *)
 Definition lit_clean (f : lfield) (l : option lit) : bool :=
   match l with
-  | Some LNull => false
   | Some (LStr _ (Some k)) => match f_type (lf f) with TJson => negb (is_scalar k) | _ => true end
   | _ => true
   end.
@@ -233,19 +284,21 @@ Definition default_typed (f : lfield) : bool :=
 Definition short_of (f : lfield) : N := f_short (lf f).
 
 Lemma local_value_typed f l v :
-  lit_clean f l = true -> default_typed f = true -> local_value f l = Some (Some v) -> value_ok (f_type (lf f)) v = true.
+  lit_clean f l = true -> default_typed f = true -> local_value f l = Some (Some v) ->
+  (f_nullable (lf f) && is_null v) || value_ok (f_type (lf f)) v = true.
 Proof.
   unfold lit_clean, default_typed, local_value. intros Hc Hd.
   destruct l as [[| | |b js|]|].
-  - destruct (f_type (lf f)); intros H; inversion H; reflexivity.
-  - destruct (f_type (lf f)); intros H; inversion H; reflexivity.
-  - destruct (f_type (lf f)); intros H; inversion H; reflexivity.
+  - destruct (f_type (lf f)); intros H; inversion H; apply orb_true_r.
+  - destruct (f_type (lf f)); intros H; inversion H; apply orb_true_r.
+  - destruct (f_type (lf f)); intros H; inversion H; apply orb_true_r.
   - destruct (f_type (lf f)) eqn:Et; intros H; try discriminate.
-    + destruct b; inversion H. reflexivity.
-    + inversion H. reflexivity.
-    + destruct js as [k|]; [|discriminate]. inversion H; subst. destruct v; simpl in Hc; try discriminate; reflexivity.
-  - discriminate.
-  - destruct (f_nullable (lf f)); [discriminate|]. destruct (lf_default f); [|discriminate]. intros H. inversion H; subst. exact Hd.
+    + destruct b; inversion H. apply orb_true_r.
+    + inversion H. apply orb_true_r.
+    + destruct js as [k|]; [|discriminate]. inversion H; subst. destruct v; simpl in Hc; try discriminate; apply orb_true_r.
+  - (* an explicit null: accepted locally only for a nullable field, and peers accept it there *)
+    destruct (f_nullable (lf f)); [|discriminate]. intros H. inversion H. reflexivity.
+  - destruct (f_nullable (lf f)); [discriminate|]. destruct (lf_default f); [|discriminate]. intros H. inversion H; subst. rewrite Hd. apply orb_true_r.
 Qed.
 
 Lemma local_value_absent f l : local_value f l = Some None -> f_nullable (lf f) = true.
@@ -318,144 +371,44 @@ Qed.
 Local Open Scope N_scope.
 Definition fld (s : N) (t : ftype) (nullable : bool) (d : option jval) : lfield :=
   {| lf := {| f_short := s; f_type := t; f_nullable := nullable; f_default := match d with Some _ => true | None => false end |}; lf_default := d |}.
-(* K1: `i: null` on a nullable Integer field *)
-Definition w12_null : c12case := CJson [fld 32 TString false None; fld 33 TInt true None] [(32, LStr false None); (33, LNull)].
-(* K2: `j: "5"` on a Json field; a Json field whose default is "5" *)
+(* (repaired by d170035) `i: null` on a nullable Integer field; (8ac9d00) `j: null` on a nullable Json field *)
+Definition w12_null : c12case := CJson [fld 32 TString false None; fld 33 TInt true None; fld 34 TJson true None]
+                                       [(32, LStr false None); (33, LNull); (34, LNull)].
+(* class 2: `j: "5"` on a Json field; a Json field whose default is "5" *)
 Definition w12_scalar : c12case := CJson [fld 32 TString false None; fld 33 TJson true None] [(32, LStr false None); (33, LStr false (Some JInt))].
 Definition w12_scalar_default : c12case := CJson [fld 32 TJson false (Some JInt)] [].
-(* K3: key 1 authored the row and has the own-rows right only; the mutation removes the reference
-   key 2 attached to it *)
+(* (repaired by 25ca1a0) key 1 authored the row and has the own-rows right only; the mutation removes
+   the reference key 2 attached to it: now refused locally as well *)
 Definition w12_ref : c12case :=
   CWrite [(1, [EvGroup 1; EvUser 1 1 10%Z true; EvUser 1 2 10%Z true; EvRight 1 1 10%Z true false])]
          [(1, [{| f_short := 32; f_type := TString; f_nullable := false; f_default := false |}])] 1
          {| h_kind := KNormal; h_ent := 1; h_room := Some 1; h_date := 20%Z; h_has_node := true; h_too_big := false;
-            h_old := Some {| o_room := Some 1; o_author := 1 |}; h_edge_dels := 2 |} 1 [2; 1].
+            h_old := Some {| o_room := Some 1; o_author := 1 |}; h_edge_dels := [2; 1] |} 1.
 
 Example witnesses12 :
-  violations12 w12_null (run_C12 w12_null) = [1%Z] /\
   violations12 w12_scalar (run_C12 w12_scalar) = [2%Z] /\
-  violations12 w12_scalar_default (run_C12 w12_scalar_default) = [2%Z] /\
-  violations12 w12_ref (run_C12 w12_ref) = [3%Z] /\ run_C12 w12_ref = [0; 1; 1; 1]%Z.
+  violations12 w12_scalar_default (run_C12 w12_scalar_default) = [2%Z].
 Proof. repeat split; vm_compute; reflexivity. Qed.
 
-(* non-vacuity: accepted on both sides, refused on both sides *)
+Example repaired_witnesses12 :
+  run_C12 w12_null = [1; 1; 4; 0; 0]%Z /\ violations12 w12_null (run_C12 w12_null) = [] /\
+  run_C12 w12_ref = [1; 1; 1; 1]%Z /\ violations12 w12_ref (run_C12 w12_ref) = [].
+Proof. repeat split; vm_compute; reflexivity. Qed.
+
+(* non-vacuity: accepted on both sides (a move, two references added, an own and a foreign reference
+   removed with the all-rows right), refused on both sides *)
 Definition w12_ok : c12case :=
-  CWrite [(1, [EvGroup 1; EvUser 1 1 10%Z true; EvRight 1 1 10%Z true false]); (2, [EvGroup 1; EvUser 1 1 10%Z true; EvRight 1 0 10%Z true true])]
+  CWrite [(1, [EvGroup 1; EvUser 1 1 10%Z true; EvRight 1 1 10%Z true true]); (2, [EvGroup 1; EvUser 1 1 10%Z true; EvRight 1 0 10%Z true true])]
          [(1, [{| f_short := 32; f_type := TString; f_nullable := false; f_default := false |}])] 1
          {| h_kind := KNormal; h_ent := 1; h_room := Some 1; h_date := 20%Z; h_has_node := true; h_too_big := false;
-            h_old := Some {| o_room := Some 2; o_author := 1 |}; h_edge_dels := 1 |} 2 [1].
+            h_old := Some {| o_room := Some 2; o_author := 1 |}; h_edge_dels := [1; 3] |} 2.
 Definition w12_refused : c12case :=
   CWrite [(1, [EvGroup 1; EvUser 1 1 10%Z true; EvRight 1 1 10%Z true false])]
          [(1, [{| f_short := 32; f_type := TString; f_nullable := false; f_default := false |}])] 1
          {| h_kind := KNormal; h_ent := 1; h_room := Some 1; h_date := 20%Z; h_has_node := true; h_too_big := false;
-            h_old := Some {| o_room := Some 1; o_author := 3 |}; h_edge_dels := 0 |} 1 [].
+            h_old := Some {| o_room := Some 1; o_author := 3 |}; h_edge_dels := [] |} 1.
 Example nonvacuous12 :
-  run_C12 w12_ok = [0; 1; 2; 1]%Z /\ spec_C12 w12_ok (run_C12 w12_ok) = true /\
+  run_C12 w12_ok = [0; 1; 2; 2]%Z /\ spec_C12 w12_ok (run_C12 w12_ok) = true /\
   run_C12 w12_refused = [1; 0; 1; 0]%Z /\ spec_C12 w12_refused (run_C12 w12_refused) = true /\
   run_C12 (CJson [fld 32 TString false None; fld 33 TFloat true None] [(32, LStr false None); (33, LInt)]) = [1; 1; 4; 3]%Z.
 Proof. repeat split; vm_compute; reflexivity. Qed.
-
-(* ------------------------------------------------------------------ CWrite with references of any authors:
-   the only possible disagreement is class 3 *)
-Local Close Scope N_scope.
-Lemma numbered_ge {A} (l : list A) : forall n p, In p (numbered n l) -> (n <= fst p)%N.
-Proof.
-  induction l as [|a t IH]; simpl; intros n p H; [contradiction|]. destruct H as [<-|H]; [simpl; lia|].
-  apply IH in H. lia.
-Qed.
-Lemma numbered_fst_inj {A} (l : list A) : forall n p q, In p (numbered n l) -> In q (numbered n l) -> fst p = fst q -> p = q.
-Proof.
-  induction l as [|a t IH]; simpl; intros n p q Hp Hq He; [contradiction|].
-  destruct Hp as [<-|Hp], Hq as [<-|Hq].
-  - reflexivity.
-  - apply numbered_ge in Hq. simpl in He. lia.
-  - apply numbered_ge in Hp. simpl in He. lia.
-  - eapply IH; eauto.
-Qed.
-Lemma count_map {A B} (p : B -> bool) (f : A -> B) l : count p (map f l) = count (fun x => p (f x)) l.
-Proof. unfold count. f_equal. induction l as [|a t IH]; simpl; [reflexivity|]. destruct (p (f a)); simpl; rewrite IH; reflexivity. Qed.
-Lemma count_le_in {A} (p q : A -> bool) l : (forall x, In x l -> p x = true -> q x = true) -> count p l <= count q l.
-Proof.
-  unfold count. intros H. apply inj_le. induction l as [|a t IH]; simpl; [lia|].
-  assert (IH' : (length (filter p t) <= length (filter q t))%nat) by (apply IH; intros; apply H; simpl; auto).
-  destruct (p a) eqn:Pa.
-  - rewrite (H a (or_introl eq_refl) Pa). simpl. lia.
-  - destruct (q a); simpl; lia.
-Qed.
-Lemma count_le_length {A} (p : A -> bool) l : count p l <= Z.of_nat (length l).
-Proof. unfold count. apply inj_le. induction l as [|a t IH]; simpl; [lia|]. destruct (p a); simpl; lia. Qed.
-Lemma count_numbered_snd {A} (p : A -> bool) (l : list A) : forall n, count (fun x => p (snd x)) (numbered n l) = count p l.
-Proof.
-  unfold count. intros n. f_equal. revert n. induction l as [|a t IH]; intros n; simpl; [reflexivity|].
-  destruct (p a); simpl; rewrite IH; reflexivity.
-Qed.
-
-Lemma own_tombstones_accepted defs me h rm rid r :
-  find_room (build_rooms defs) rid = Some r -> can r me (h_ent h) (h_date h) MutateSelf = true ->
-  count (fun k => N.eqb k me) rm <=
-  count (edel_ok (build_rooms defs) (peer_store h rm)) (map (ref_tombstone me rid (h_date h)) (s_edges (peer_store h rm))).
-Proof.
-  intros Er Hself. unfold peer_store at 2. cbn [s_edges]. rewrite !count_map.
-  rewrite <- (count_numbered_snd (fun k => N.eqb k me) rm 0%N).
-  apply count_le_in. intros p Hp Hmine.
-  unfold edel_ok, ref_tombstone. cbn [ed_ent ed_room ed_author ed_date stored_ref e_ent]. rewrite Er.
-  match goal with |- can r me _ _ ?t = true => assert (Ht : t = MutateSelf) end.
-  { destruct (find _ _) as [ex|] eqn:Ef; [|reflexivity]. apply find_some in Ef. destruct Ef as [Hin Hhit].
-    unfold peer_store in Hin. cbn [s_edges] in Hin. apply in_map_iff in Hin. destruct Hin as [q [<- Hq]].
-    unfold edge_hit in Hhit. cbn [ed_src ed_ent ed_label ed_dest ed_cdate stored_ref e_src e_ent e_label e_dest e_cdate] in Hhit.
-    apply andb_prop in Hhit. destruct Hhit as [Hhit _]. apply andb_prop in Hhit. destruct Hhit as [_ Hdest].
-    apply N.eqb_eq in Hdest. assert (Hfst : fst q = fst p) by (eapply N.add_cancel_l; exact Hdest).
-    rewrite (numbered_fst_inj rm 0%N q p Hq Hp Hfst). unfold stored_ref. cbn [e_author]. cbn beta in Hmine. destruct p as [i k]. cbn [snd] in *. rewrite Hmine. reflexivity. }
-  rewrite Ht. exact Hself.
-Qed.
-
-Theorem write_outside_known defs dm me h nadd rm v :
-  h_kind h = KNormal -> peer_knows dm (h_ent h) = true ->
-  In v (violations12 (CWrite defs dm me h nadd rm) (run_C12 (CWrite defs dm me h nadd rm))) -> v = 3.
-Proof.
-  intros Hk Hp. unfold run_C12, violations12, write_sends. rewrite Hk.
-  destruct (h_has_node h) eqn:Hn; [|contradiction].
-  destruct (h_room h) as [rid|] eqn:Hr; [|contradiction].
-  rewrite (accept_sent_row defs dm me h rm rid Hr Hp).
-  pose proof (node_agree me (build_rooms defs) h rid Hk Hn Hr) as Hag.
-  pose proof (validate_entity_single me (build_rooms defs) h) as Hsingle.
-  destruct (validate_entity me (build_rooms defs) (MEnt h [])) eqn:Hv; cbn [verdict_code Z.eqb].
-  - assert (Hc : check_head me (build_rooms defs) h = None) by (apply Hsingle; reflexivity).
-    assert (Hval : validate_node (build_rooms defs) (sent_row me h) (old_room_of h) (old_author_of h) = true) by (apply Hag; exact Hc).
-    rewrite Hval. cbn [zb Z.eqb andb].
-    destruct (head_ok_can defs me h rid Hk Hn Hr Hc) as [r [Er Hself]]. rewrite Er.
-    rewrite count_all.
-    2:{ apply forallb_forall. intros x Hx. apply in_map_iff in Hx. destruct Hx as [i [<- _]].
-        unfold edge_ok, added_ref. cbn [e_ent e_author e_cdate]. exact Hself. }
-    rewrite map_length, length_upto, N_nat_Z, Z.eqb_refl. cbn [andb].
-    pose proof (own_tombstones_accepted defs me h rm rid r Er Hself) as Hown.
-    set (t := count (edel_ok (build_rooms defs) (peer_store h rm)) (map (ref_tombstone me rid (h_date h)) (s_edges (peer_store h rm)))) in *.
-    destruct (Z.eqb t (Z.of_nat (length rm))) eqn:Et; [contradiction|].
-    assert (Hle : count (fun k => N.eqb k me) rm <=? t = true) by (apply Z.leb_le; exact Hown).
-    rewrite Hle.
-    destruct (existsb (fun k => negb (N.eqb k me)) rm) eqn:Ex; cbn [andb].
-    + intros [<-|[]]. reflexivity.
-    + exfalso. apply Z.eqb_neq in Et. apply Et.
-      assert (Hall : forallb (fun k => N.eqb k me) rm = true).
-      { apply forallb_forall. intros k Hk'. destruct (N.eqb k me) eqn:E; [reflexivity|].
-        assert (existsb (fun k0 => negb (N.eqb k0 me)) rm = true) by (apply existsb_exists; exists k; rewrite E; auto). congruence. }
-      rewrite (count_all _ _ Hall) in Hown.
-      assert (Hub : t <= Z.of_nat (length rm)).
-      { unfold t. eapply Z.le_trans; [apply count_le_length|]. unfold peer_store. cbn [s_edges]. rewrite !map_length, length_numbered. lia. }
-      apply Z.le_antisymm; assumption.
-  - assert (Hnv : validate_node (build_rooms defs) (sent_row me h) (old_room_of h) (old_author_of h) = false).
-    { apply not_true_is_false. intros E. apply Hag in E. apply Hsingle in E. congruence. }
-    rewrite Hnv. cbn. contradiction.
-  - assert (Hnv : validate_node (build_rooms defs) (sent_row me h) (old_room_of h) (old_author_of h) = false).
-    { apply not_true_is_false. intros E. apply Hag in E. apply Hsingle in E. congruence. }
-    rewrite Hnv. cbn. contradiction.
-  - assert (Hnv : validate_node (build_rooms defs) (sent_row me h) (old_room_of h) (old_author_of h) = false).
-    { apply not_true_is_false. intros E. apply Hag in E. apply Hsingle in E. congruence. }
-    rewrite Hnv. cbn. contradiction.
-  - assert (Hnv : validate_node (build_rooms defs) (sent_row me h) (old_room_of h) (old_author_of h) = false).
-    { apply not_true_is_false. intros E. apply Hag in E. apply Hsingle in E. congruence. }
-    rewrite Hnv. cbn. contradiction.
-  - assert (Hnv : validate_node (build_rooms defs) (sent_row me h) (old_room_of h) (old_author_of h) = false).
-    { apply not_true_is_false. intros E. apply Hag in E. apply Hsingle in E. congruence. }
-    rewrite Hnv. cbn. contradiction.
-Qed.
